@@ -12,6 +12,9 @@
 //       answer: `<result> | <trace>`; trace = `curlen:length:state:buffered` after construction and
 //       after every chunk (private members, exposed below), `;`-separated; raw/fin results are
 //       hex-encoded by the harness.  Direct oracle: result == expected (hashlib, via the op line).
+//   big <algo> <sv-hex|ctorsv-hex|fnsv-hex> <expected> <len> <a> <b>
+//       message of `len` bytes (may exceed 4 GiB) with byte i = (a*i + b) & 0xff, passed as ONE
+//       tlx::string_view to process(string_view) / X(string_view) / xxx_hex(string_view).  No trace.
 //   sip <plain|sse2|auto|dk|dkc|sv> <expected 16 hex> <key align> <key hex> <msg align> <message hex|->
 //       key and message are placed at the given offsets (0..15) of 16-byte aligned heap blocks that
 //       end exactly at their last byte.  dk/dkc/sv use the built-in default key (key must be 00..0f).
@@ -181,6 +184,26 @@ int main(int argc, char** argv) {
             if (result != want)
                 vh::viol("digest-mismatch " + a + " " + t[2] + " len=" + std::to_string(msg.size()) + " chunks=" + t[4] +
                          " got=" + result + " want=" + want);
+            continue;
+        }
+        if (t[0] == "big" && t.size() == 7) {
+            unsigned long long len = std::strtoull(t[4].c_str(), nullptr, 10);
+            unsigned a = unsigned(std::atoi(t[5].c_str())), b = unsigned(std::atoi(t[6].c_str()));
+            const std::string& al = t[1];
+            const std::string& form = t[2];
+            if (!(form == "sv-hex" || form == "ctorsv-hex" || form == "fnsv-hex") || len > (1ull << 34) ||
+                !(al == "md5" || al == "sha1" || al == "sha256" || al == "sha512")) { vh::answer("bad-op"); continue; }
+            std::unique_ptr<char[]> mem(new char[len ? len : 1]);
+            for (unsigned long long i = 0; i < len; ++i) mem[i] = char((a * unsigned(i & 0xff) + b) & 0xff);
+            tlx::string_view sv(mem.get(), size_t(len));
+            std::string result;
+            if (al == "md5") result = form == "fnsv-hex" ? tlx::md5_hex(sv) : form == "ctorsv-hex" ? tlx::MD5(sv).digest_hex() : [&] { tlx::MD5 d; d.process(sv); return d.digest_hex(); }();
+            else if (al == "sha1") result = form == "fnsv-hex" ? tlx::sha1_hex(sv) : form == "ctorsv-hex" ? tlx::SHA1(sv).digest_hex() : [&] { tlx::SHA1 d; d.process(sv); return d.digest_hex(); }();
+            else if (al == "sha256") result = form == "fnsv-hex" ? tlx::sha256_hex(sv) : form == "ctorsv-hex" ? tlx::SHA256(sv).digest_hex() : [&] { tlx::SHA256 d; d.process(sv); return d.digest_hex(); }();
+            else result = form == "fnsv-hex" ? tlx::sha512_hex(sv) : form == "ctorsv-hex" ? tlx::SHA512(sv).digest_hex() : [&] { tlx::SHA512 d; d.process(sv); return d.digest_hex(); }();
+            vh::answer(result);
+            if (result != t[3])
+                vh::viol("digest-mismatch " + al + " " + form + " big len=" + t[4] + " got=" + result + " want=" + t[3]);
             continue;
         }
         if (t[0] == "sip" && t.size() == 7) {
